@@ -227,6 +227,38 @@ func genValidCases(r *RNG, thorough bool) []string {
 	o = std()
 	o.noAuth = true
 	vb(did, mk(o), o.vmID, "s", A)
+	// relationships that must RESOLVE: a bare reference counts only if verificationMethod lists that id; a method
+	// embedded in some relationship does not make its id referable — before, after, in the same or in another list
+	rels := []string{"auth", "assert", "keyagree", "capinv", "capdel"}
+	emb := did + "#e1"
+	raw := func(lines ...string) string {
+		nDoc++
+		ref := fmt.Sprintf("v%d", nDoc)
+		add("DOC %s %s", ref, toks(did))
+		add("DCTX %s %s", ref, toks(didtypes.ContextDIDV1))
+		add("DVM %s %s %s %s %s", ref, toks(did+"#k1"), toks(didtypes.ES256K_2019), toks(did), toks(key.b58))
+		add("DREL %s auth ref %s", ref, toks(did+"#k1"))
+		for _, l := range lines {
+			add("DREL %s %s", ref, l)
+		}
+		return ref
+	}
+	ded := func(which, id string) string { return fmt.Sprintf("%s ded %s %s %s %s", which, toks(id), toks(didtypes.ES256K_2019), toks(did), toks(key.b58)) }
+	refTo := func(which, id string) string { return fmt.Sprintf("%s ref %s", which, toks(id)) }
+	for i, w1 := range rels {
+		for j, w2 := range rels {
+			if j >= i {
+				vb(did, raw(ded(w1, emb), refTo(w2, emb)), did+"#k1", "s", A) // embedded, then referenced (same or later list)
+			}
+			if j <= i {
+				vb(did, raw(refTo(w2, emb), ded(w1, emb)), did+"#k1", "s", A) // referenced before the embedding
+			}
+		}
+		vb(did, raw(refTo(w1, did+"#k1")), did+"#k1", "s", A)                    // control: a listed method referenced from every list
+		vb(did, raw(ded(w1, did+"#k1"), refTo(w1, did+"#k1")), did+"#k1", "s", A) // embedded copy of a listed method + reference
+		vb(did, raw(ded(w1, emb), ded(w1, emb)), did+"#k1", "s", A)               // the same method embedded twice
+		vb(did, raw(refTo(w1, emb)), did+"#k1", "s", A)                           // dangling reference
+	}
 	// contexts
 	for _, c := range [][]string{nil, {}, {didtypes.ContextDIDV1}, {"x"}, {"x", didtypes.ContextDIDV1}, {didtypes.ContextDIDV1, "x"}, {didtypes.ContextDIDV1, didtypes.ContextDIDV1}, {didtypes.ContextDIDV1, "x", "x"}, {didtypes.ContextDIDV1, ""}, {""}} {
 		o := std()
